@@ -50,7 +50,7 @@ Proof.
   - intros e L. specialize (Ve e (in_live_edges s e L)). destruct (edge_at s e) as [a b]. simpl. apply andb_true_iff in Ve. exact Ve.
   - intros f L h Hh. specialize (Vf f (in_live_faces s f L)). apply andb_true_iff in Vf. destruct Vf as (Vf & _).
     rewrite forallb_forall in Vf. apply Vf, Hh.
-  - intros c L hf Hhf. specialize (Vc c (in_live_cells s c L)). rewrite forallb_forall in Vc. apply Vc, Hhf.
+  - intros c L hf Hhf. specialize (Vc c (in_live_cells s c L)). apply andb_true_iff in Vc. destruct Vc as (Vc & _). rewrite forallb_forall in Vc. apply Vc, Hhf.
   - intros F. unfold vbu_ok_b in Hv. rewrite F in Hv. simpl in Hv. apply andb_true_iff in Hv. apply Nat.eqb_eq, Hv.
   - intros F. unfold ebu_ok_b in He. rewrite F in He. simpl in He. apply andb_true_iff in He. apply Nat.eqb_eq, He.
   - intros F. unfold fbu_ok_b in Hf. rewrite F in Hf. simpl in Hf. rewrite !andb_true_iff in Hf. apply Nat.eqb_eq, Hf.
